@@ -39,8 +39,8 @@ variable (s : Str)
 
 /-- the token `t`, followed by `rest`, prints the suffix of `s` that starts at the offset its line/column denote -/
 def TokOk (t : Token) (rest : List Token) : Prop :=
-  ∃ pre, s = pre ++ (printed t ++ restText rest) ∧ pre.length = lineOff s t.lineno + t.colno ∧
-    ((t.tid = .rparen ∨ t.tid = .rbracket) → (printed t).length = 1)
+  ∃ pre, s = pre ++ (printed t ++ restText rest) ∧ Addr s t.lineno t.colno pre.length ∧
+    (isCloser t.tid → (printed t).length = 1 ∧ countNl (printed t) = 0)
 
 def StreamOk : List Token → Prop
   | [] => True
@@ -108,8 +108,8 @@ theorem sync_congr {st st' : PState} (hc : st'.cur = st.cur) (hr : st'.rest = st
 
 /-- what `Sync` says at a real token with nothing pending -/
 theorem sync_rem {st : PState} (hy : Sync s st) (hne : st.cur.tid ≠ .eof) (hnl : st.cur.tid ≠ .eol) :
-    ∃ pre, s = pre ++ rem st ∧ pre.length = lineOff s st.cur.lineno + st.cur.colno ∧
-      ((st.cur.tid = .rparen ∨ st.cur.tid = .rbracket) → (printed st.cur).length = 1) := by
+    ∃ pre, s = pre ++ rem st ∧ Addr s st.cur.lineno st.cur.colno pre.length ∧
+      (isCloser st.cur.tid → (printed st.cur).length = 1 ∧ countNl (printed st.cur) = 0) := by
   obtain ⟨pre, h1, h2, h3⟩ := hy.1 hne
   exact ⟨pre, by simpa [rem, hnl] using h1, h2, h3⟩
 
@@ -175,7 +175,7 @@ theorem step_create {w : Bool} {nd n : Node} {st st' : PState} (h : create nd st
 
 theorem step_createSymbol {w : Bool} {t : Token} {o : Node} {st st' : PState}
     (h : createSymbol t st = .ok (o, st')) : Step s w true st st' (Spans s o) :=
-  (step_create h).mono (fun hq => hq.mpr (spans_symbol _ _))
+  (step_create h).mono (fun hq => hq.mpr ((spans_symbol _ _).mpr (noEnd_ofTok _)))
 
 theorem step_flushWs {w : Bool} {block n : Node} {st st' : PState} (h : flushWs block st = .ok (n, st')) :
     Step s w true st st' (Spans s n ↔ Spans s block) := by
@@ -210,10 +210,11 @@ theorem step_leafAny {w : Bool} {ts : List Tid} {st s1 s2 : PState} {ot : Option
   ((step_acceptAny ha).trans (step_create hc)).mono (fun h => h.2.mpr hq)
 
 theorem step_noteOrder {w : Bool} {a : Node} {st st' : PState} {u : Unit} (h : noteOrder a st = .ok (u, st')) :
-    Step s w w st st' True := by
+    Step s w w st st' (argsHasKw a = false) := by
   refine ⟨fun hd => ?_, fun hd hw hy => ?_⟩
   · rw [(noteOrder_spec h hd).2] at hd; exact hd
-  · have := (noteOrder_spec h hd).2; subst this; exact ⟨hw, hy, trivial⟩
+  · have hk := (noteOrder_spec h hd).1
+    have := (noteOrder_spec h hd).2; subst this; exact ⟨hw, hy, hk⟩
 
 /-- productions: entered with nothing pending, leave nothing pending -/
 def Sp (f : P Node) : Prop := ∀ st n st', f st = .ok (n, st') → Step s true true st st' (Spans s n)
